@@ -57,6 +57,7 @@ pub struct GrammarSys {
     pub ch: u8,
     pub timeout: u64,
     pub timeout_us: u64,
+    pub exotic: Option<(Duration, &'static str)>,
     pub cap: u64,
     pub pauses: Vec<u64>,
     pub values: Vec<u8>,
@@ -69,13 +70,24 @@ impl GrammarSys {
             ch,
             timeout,
             timeout_us: timeout.saturating_mul(1000),
+            exotic: None,
             cap: cap_for(timeout, 1),
             pauses: if WRAP16.load(std::sync::atomic::Ordering::Relaxed) { vec![1000, (1 << 16) - 2, (1 << 20) + 100, 1 << 32] } else { vec![1000, (1 << 20) + 100, 1 << 32] },
             values: values.to_vec(),
             others: noncontrib_small::<PollingParameterNumberMessageScanner>(ch),
         }
     }
+    pub fn with_exotic(mut self, d: Duration, label: &'static str) -> Self {
+        self.timeout = T_INF;
+        self.timeout_us = T_INF.saturating_mul(1000);
+        self.cap = cap_for(T_INF, 1);
+        self.exotic = Some((d, label));
+        self
+    }
     fn tname(&self) -> String {
+        if let Some((_, l)) = self.exotic {
+            return l.to_string();
+        }
         if self.timeout >= T_INF { "inf".into() } else if self.timeout_us % 1000 != 0 { format!("{}us", self.timeout_us) } else { format!("{}ms", self.timeout) }
     }
     pub fn with_timeout_us(mut self, us: u64) -> Self {
@@ -197,7 +209,7 @@ impl System for GrammarSys {
     }
     fn init(&self) -> GState {
         set_now_millis(0);
-        GState { sc: PollingParameterNumberMessageScanner::new(Duration::from_micros(self.timeout_us)), now: 0, g: G::Start }
+        GState { sc: PollingParameterNumberMessageScanner::new(match self.exotic { Some((d, _)) => d, None => Duration::from_micros(self.timeout_us) }), now: 0, g: G::Start }
     }
     fn actions_at(&self, s: &GState, depth: u32, out: &mut Vec<GAct>) {
         self.actions(s, out);
@@ -290,7 +302,8 @@ impl System for GrammarSys {
         }
     }
     fn rust_preamble(&self) -> String {
-        format!("// build with RUSTFLAGS=\"--cfg helgoboss_midi_verif\" for the mock clock\n    let mut scanner = helgoboss_midi::PollingParameterNumberMessageScanner::new(std::time::Duration::from_micros({}));\n    let mut clock = 0u64;", self.timeout_us)
+        let d = match self.exotic { Some((d, _)) => d, None => Duration::from_micros(self.timeout_us) };
+        format!("// build with RUSTFLAGS=\"--cfg helgoboss_midi_verif\" for the mock clock\n    let mut scanner = helgoboss_midi::PollingParameterNumberMessageScanner::new(std::time::Duration::new({}, {}));\n    let mut clock = 0u64;", d.as_secs(), d.subsec_nanos())
     }
     fn rust_line(&self, a: &GAct) -> String {
         match a {
@@ -491,10 +504,20 @@ pub fn run_c12(chk: &Check, tier: Tier) {
             engine::record(chk, &sys, &out, None);
         }
         if t == 2 {
-            // a timeout with a sub-millisecond part
-            let sys = GrammarSys::new(channels[0], 2, &v3).with_timeout_us(1500);
-            let out = xs::explore(&sys, &Limits::default());
-            engine::record(chk, &sys, &out, None);
+            // a timeout with a sub-millisecond part, one below a millisecond
+            for us in [1500u64, 500] {
+                let sys = GrammarSys::new(channels[0], 2, &v3).with_timeout_us(us);
+                let out = xs::explore(&sys, &Limits::default());
+                engine::record(chk, &sys, &out, None);
+            }
+            // astronomically long timeouts that alias to zero under a truncating conversion
+            for (d, label) in crate::polling::exotic_timeouts() {
+                let mut sys = GrammarSys::new(channels[0], T_INF, &[1]).with_exotic(d, label);
+                // the oracle treats these as never expiring, so no pause may reach the shortest (2^32 ms)
+                sys.pauses = vec![1 << 20];
+                let out = xs::explore(&sys, &Limits::default());
+                engine::record(chk, &sys, &out, None);
+            }
         }
         if tier.thorough() {
             let sys = GrammarSys::new(4, t, &v8);
